@@ -15,6 +15,7 @@ from pyvc.sym import (I, B, A, A2, iv, add, sub, lit, fresh, fresh_seq, Seq, Tup
 Z3_TIMEOUT_MS = int(os.environ.get("PYVC_Z3_TIMEOUT_MS", "20000"))
 CVC5_TIMEOUT_S = int(os.environ.get("PYVC_CVC5_TIMEOUT_S", "40"))
 FEAS_TIMEOUT_MS = 1500
+MAX_FAILURES_PER_UNIT = 6
 RELEVANCY0_FIRST = os.environ.get("PYVC_RELEVANCY0_FIRST", "0") == "1"
 
 
@@ -170,6 +171,10 @@ class Exec:
         if full in self.failed_names:
             # the same named obligation already failed on another path of this unit: it stays failed, no need to burn the budgets again
             self.results.append(Result(full, "failed", "skipped", 0.0, line, "same obligation already failed on another path"))
+            return
+        if len(self.failed_names) >= MAX_FAILURES_PER_UNIT:
+            # the unit is red many times over: further obligations are reported as not attempted instead of spending the solver budgets on each
+            self.results.append(Result(full, "failed", "skipped", 0.0, line, f"not attempted: {MAX_FAILURES_PER_UNIT} obligations of this unit already failed"))
             return
         if len(self.failed_names) >= 1 and self.retries:     # after the first failure: short budgets (the unit is red anyway)
             self.z3_timeout_ms, self.cvc5_timeout_s, self.retries = min(self.z3_timeout_ms, 6000), 0, 1
